@@ -750,9 +750,9 @@ fn gen_specs(property: &str, seed: u64, tier: Tier, corpus: &Corpus, n: usize) -
         } else {
             let mut rng = Rng::for_run(seed, ENGINE_C30, i as u64);
             let cfg = match rng.below(3) {
-                0 => C30Config { max_docs: 1, max_edits: 1, max_requests: 6 },
-                1 => C30Config { max_docs: 2, max_edits: 4, max_requests: 12 },
-                _ => C30Config { max_docs: 3, max_edits: 8, max_requests: 20 },
+                0 => C30Config { max_docs: 1, max_edits: 1, max_requests: 6, mutate: false },
+                1 => C30Config { max_docs: 2, max_edits: 4, max_requests: 12, mutate: true },
+                _ => C30Config { max_docs: 3, max_edits: 8, max_requests: 20, mutate: true },
             };
             workload::gen_c30(&mut rng, corpus, &cfg)
         };
